@@ -19,6 +19,7 @@ CHECKS = {
  "C02": ("exploration", "seeded SEQ scenarios put every operation kind with generated arguments and every combination of one-shot modifiers on one handle (plus MUX scenarios for concurrent handles); the scripted server decodes each request with the harness's own strict RFC 4511 decoder and the result is compared with a request model built from the call arguments and a reference model of the handle's modifier state", "6 C02", "seeded history search; independent strict decoder at the simulated peer plus modifier-state reference model"),
  "C03": ("exploration", "seeded SEQ scenarios answer every operation with generated results (all codes, UTF-8 strings, referrals, controls in every presence combination, extended name/value, random legal length forms on every TLV); the value the caller receives is compared field by field with the response model; success()/non_error()/equal() are evaluated on the returned value against the documented table; MUX scenarios repeat the comparison under concurrency", "6 C03", "seeded history search; response reference model at the simulated peer"),
  "C06": ("exploration", "per seeded response burst every two-chunk split point, one-byte delivery, frame-aligned +-1, random chunking and read caps; later chunks arrive one simulated millisecond later, so a message surfaced before its last byte or bytes eaten from the next message show up as an early return, a wrong value or a hang", "6 C06", "seeded partition sweep of the response byte stream on the simulated network"),
+ "C11": ("exploration", "seeded HOSTILE scenarios splice one hostile item (random bytes, bit flips, every single-field mutation of a valid frame, malformed controls and result bodies, nesting up to 200 000 levels) into the response stream while operations are pending; the driver may not panic, the worker process may not die (each run on a 2 MiB stack inside a supervised child), every pending call must be released in the instant the announced bytes have arrived (not a simulated second later when the server closes), and non-envelope input must end drive() with an error", "6 C11", "seeded fault injection at the byte level with process supervision"),
  "C14": ("exploration", "differential simulation (sampled, reported as exploration): every seeded script over the whole LdapConn / EntryStream surface runs once through Ldap / SearchStream and once through the synchronous facade (hook H5) against the same scripted server on the same kind of paused-clock runtime; decoded wire transcripts, returned values, last_id and virtual completion times must agree up to the point where the connection is compromised (after that the order in which driver and caller notice the loss is schedule-dependent and only reported as coverage)", "6 C14", "differential simulation of the two API surfaces against one scripted peer"),
  "C16": ("exploration", "seeded PAGED scenarios run searches through the PagedResults adapter (alone, before or behind EntriesOnly) against a paging server model; entries returned are compared with the concatenation of all pages, every request the server decodes with the first request and with the cookie chain the server handed out, the final result with the last page's result minus the paging control; caller-supplied paging controls must be refused", "6 C16", "seeded history search against a paging reference model at the simulated peer"),
  "C04": ("fault_enumeration", "per seeded exchange a fault-free reference run fixes the byte lengths and the decision trace; then EOF / reset at every response byte boundary, write error / server close at every request byte boundary, every flush, an undecodable frame before every response frame, unbind and handle drop at every step; each run is checked for termination of every call and of drive(), no invented values, survival of fully delivered replies (exactly, for read-side faults), immediate failure of later operations, and transport close on unbind / last drop; worker processes are supervised so that an in-poll spin or crash is caught", "6 C04", "fault enumeration over every byte boundary of seeded exchanges, replaying the reference schedule up to the fault"),
